@@ -98,6 +98,11 @@ def explore_many(tasks, cap_per_subtree=0):
     """tasks: list of (execute, check, bound).  All roots, then all first-level subtrees of
     all tasks, are spread over the worker pool.  Returns one stats dict per task."""
     roots = common.pmap(_root, tasks, chunksize=1)
+    if tasks:
+        # determinism self-test: the first task's default schedule executed again must give the same observation and points
+        again = _root(tasks[0]) if common.NPROC <= 1 else common.pmap(_root, [tasks[0]], chunksize=1)[0]
+        if (again[0], again[2], again[3]) != (roots[0][0], roots[0][2], roots[0][3]):
+            raise sk.HarnessError("determinism self-test failed: the same schedule gave two different executions")
     results = []
     jobs = []
     owner = []
